@@ -8,7 +8,10 @@ import (
 )
 
 var c18OptNames = []string{"a", "b", "c", "A", "aa", "ab", "all", "force", "f", "x1", "b2", "B"}
-var c18ArgNames = []string{"X", "Y", "SRC", "DST_1", "A2", "X", "OPTIONS", "x", "Src", "1X", "A-B", "A.B", "", "É", "X=", "[X]", "X...", "_X", "XY_", "OPTIONS_1", "O", "ARG\u0131", "N\u0441", "FILE\u754c", "A\u0130", "X\u00c1", "Z\xff"}
+
+// names whose status the statement leaves open are not generated: the reserved word OPTIONS, names with non-ASCII
+// upper-case or caseless letters, a leading underscore
+var c18ArgNames = []string{"X", "Y", "SRC", "DST_1", "A2", "X", "x", "Src", "1X", "A-B", "A.B", "", "X=", "[X]", "X...", "XY_", "OPTIONS_1", "O", "ARG\u0131", "N\u0441", "Z\xff"}
 
 func TestC18(t *testing.T) {
 	st := StatsFor("C18")
